@@ -125,6 +125,15 @@ def check_case(fn, recipe, script, kind, T, vname, rec=None, then=None, delivery
         sel = f"f > $x:@{T}" if kind == "generic-tag" else f"f > *:@{T}"
         want = [(n, v) for n, v, tg in binds if T in tg]
         exists = any(T in tg for tgs in st_.values() for tg in tgs)
+    elif kind == "generic-tag-ctx":
+        # a second generic capture (another tag) in the same selector: variables carrying both
+        # tags are matched by both captures; the focus must still fire for every @T binding
+        T2 = "B" if T != "B" else "A"
+        sel = f"f($y:@{T2}) > $x:@{T}"
+        want = [(n, v) for n, v, tg in binds if T in tg]
+        exists = any(T in tg for tgs in st_.values() for tg in tgs)
+        if not exists or not any(T2 in tg for tgs in st_.values() for tg in tgs):
+            return
     elif kind == "named-tag":
         sel = f"f > {vname}:@{T}"
         want = [(n, v) for n, v, tg in binds if T in tg and n == vname]
@@ -142,6 +151,8 @@ def check_case(fn, recipe, script, kind, T, vname, rec=None, then=None, delivery
 
     def on(ev):
         for key, cap in ev.items():
+            if kind == "generic-tag-ctx" and key != "x":
+                continue
             got.append((cap.name, PR.nrepr(cap.value)))
 
     refused = None
@@ -220,6 +231,8 @@ def check_case(fn, recipe, script, kind, T, vname, rec=None, then=None, delivery
                     "tag-stream", f"{sel} captured {got}, the bindings carrying the tag are {want}\n"
                                   f"all bindings {[(n, v, tg) for n, v, tg in binds]}\n{ctxt}",
                     extra={"bucket": "tag-stream:" + ("missing" if len(got) < len(want) else "extra" if len(got) > len(want) else "value")})
+            if kind == "generic-tag-ctx":
+                spy = None  # the bindings carrying the second tag are instrumented as well
             spy_own = want if spy is None else [(n, v) for n, v in spy if not n.startswith("#")]
             if spy_own != want:
                 raise PropertyViolation(
@@ -341,7 +354,8 @@ def strategy():
         fn = tagify(draw, draw(fns))
         recipe = PG.draw_inputs(draw, fn)
         script = draw(scripts) if fn["gen"] else []
-        kind = draw(st.sampled_from(["generic-tag", "generic-tag", "star-tag", "named-tag", "named-tag", "generic"]))
+        kind = draw(st.sampled_from(["generic-tag", "generic-tag", "star-tag", "named-tag", "named-tag", "generic",
+                                     "generic-tag-ctx"]))
         T = draw(st.sampled_from("ABC"))
         st_ = site_tags(fn)
         names = sorted(st_) or sorted(PG.bound_names(fn))
